@@ -140,7 +140,13 @@ class Exec:
         L = self.L
         op = st["op"]
         if op == "NEW":
-            c = L.DeclarativeCircuit(repetition_strategy=self._rep_strategy(st["reps"]))
+            if st.get("rel"):
+                # a circuit constructed with a relation to an operation of another circuit (meant to be nested there)
+                rt, parent, k = st["rel"]
+                link = L.RelationLink(self.handles[parent].entries[k], L.RelationType[rt])
+                c = L.DeclarativeCircuit(relation=link, repetition_strategy=self._rep_strategy(st["reps"]))
+            else:
+                c = L.DeclarativeCircuit(repetition_strategy=self._rep_strategy(st["reps"]))
             self.handles[st["c"]] = Handle(st["c"], "decl", c, [])
         elif op == "ADD_OP":
             h = self.handles[st["c"]]
